@@ -377,7 +377,9 @@ looping through all list types: {ty:?} {base:?}"
                 }
             }
             FieldValue::Enum(_) => {
-                unimplemented!("enum values are not currently supported: {self} {value:?}")
+                // Enum values are not currently supported:
+                // none of the types Trustfall supports have enum values as members.
+                false
             }
         }
     }
